@@ -99,8 +99,8 @@ VMStep(pp, q, opn) ==
       [] o = OP_FORLOOP -> R(reg(a + 3), {q + 1, q + 1 + sbx}, None)
       [] o = OP_FORPREP -> R(reg(a + 2), {q + 1 + sbx}, None)
       [] o = OP_TFORLOOP ->
-            \* the call scratch A+3..A+5 is established by SetTop in the handler itself
-            R(reg(a + 2 + c) \cup word(q + 1),
+            \* generator, state and control are copied to A+3..A+5, the results land in A+3..A+2+C
+            R(reg(a + 5) \cup reg(a + 2 + c) \cup word(q + 1),
               {q + 2} \cup (IF q + 1 <= n - 1 THEN {q + 2 + ArgSbx(pp, q + 1)} ELSE {}), None)
       [] o = OP_SETLIST ->
             R(reg(a) \cup (IF b >= 1 THEN reg(a + b) ELSE top(TRUE)) \cup
